@@ -359,53 +359,3 @@ Proof.
   destruct (Z.leb_spec 0 e); [reflexivity | lia].
 Qed.
 
-(* ---- unsigned destinations ---- *)
-
-Lemma uint_from_u64_exact w u s : uint_from_u64 w u = Stored s -> s = StUint u.
-Proof.
-  unfold uint_from_u64. destruct (Z.eqb_spec (wrapu w u) u) as [E|E]; [|discriminate].
-  intro H; inversion H; congruence.
-Qed.
-
-Lemma uint_from_opt_exact w o s : uint_from_opt w o = Stored s -> exists u, o = Some u /\ s = StUint u.
-Proof.
-  destruct o as [u|]; [|discriminate]. intro H. exists u. split; [reflexivity|]. eapply uint_from_u64_exact; eauto.
-Qed.
-
-Lemma go_uint64_range f : 0 <= go_uint64 f < p64.
-Proof.
-  unfold go_uint64. destruct (f_lt_p63 f) eqn:Hlt.
-  - apply Z.mod_pos_bound. reflexivity.
-  - destruct f as [|s|s m e]; try (vm_compute; split; congruence).
-    cbn [f_lt_p63] in Hlt. apply orb_false_iff in Hlt as [_ Hlt]. apply Z.ltb_ge in Hlt.
-    cbv zeta. destruct (Z.ltb_spec (dy_trunc m e - p63) p63); unfold p63, p64 in *; lia.
-Qed.
-
-Lemma rne_p63 : rne 53 p63 = p63.
-Proof. vm_compute. reflexivity. Qed.
-
-Lemma rne_nonneg u : 0 <= u -> 0 <= rne 53 u.
-Proof. intro H. unfold rne. destruct (Z.ltb_spec u 0); [lia|]. apply rne_mag_nonneg. exact H. Qed.
-
-(* uint64(f) returns t when f is the non-negative integer t = float64(uint64(f)) *)
-Lemma go_uint64_core s m e :
-  sgn s (dy_trunc m e) = rne 53 (go_uint64 (FFin s m e)) -> go_uint64 (FFin s m e) = sgn s (dy_trunc m e).
-Proof.
-  pose proof (go_uint64_range (FFin s m e)) as Hr. pose proof (rne_nonneg _ (proj1 Hr)) as Hn.
-  revert Hr Hn. unfold go_uint64. cbn [f_lt_p63 cvt64]. cbv zeta.
-  set (d := dy_trunc m e). intros Hr Hn HT. rewrite <- HT in Hn.
-  destruct s; cbn [orb sgn] in *.
-  - (* negative sign: the value is <= 0 and >= 0 *)
-    destruct (in_i64 (- d)) eqn:Hin.
-    + apply in_i64_spec in Hin. 
-      assert (d <= 0) by lia.
-      destruct (Z.eq_dec d 0) as [E|E]; [rewrite E; reflexivity|].
-      exfalso. assert ((- d) mod p64 = - d) as Hm by (apply Z.mod_small; unfold p63, p64 in *; lia).
-      lia.
-    + exfalso. rewrite (Z.mod_small) in HT.
-      * assert (- d = 0 \/ 0 < - d) as [E|E] by lia.
-        -- rewrite E in Hin. vm_compute in Hin. discriminate.
-        -- admit.
-      * admit.
-  - admit.
-Admitted.
